@@ -71,6 +71,8 @@ def run_request_case(case) -> dict:
     more = list(case[7]) if len(case) > 7 else []
     lens = [n] + more
     world = W.World(n)
+    if (n + sig + vtv) % 4 == 1:
+        world.short_writes = {"max": (1, 16, 48, 100)[(n // 4) % 4]}  # socket.send() takes only that many bytes per call (sendall is unaffected)
     record: list = []
     cfg = {"legs": 2, "sig": sig}
     # what the security provider says about its signature size BEFORE the context is complete: the final size (most providers), a
@@ -385,9 +387,11 @@ def run_first_use_threads(case) -> dict:
     _, seed, policy = case
     r = random.Random(seed)
     sid = offline.SID_A
-    ops = [{"op": "protect", "fl": "thread", "group": 1, "sid": sid, "rk": None, "net": "online", "data": 5 + j, "cache": "fresh"} for j in range(2 + seed % 2)]
+    # (principals with 1..12 sub-authorities: the GetKey requests of the threads differ in length)
+    sids = [offline.sid_shape(1 + (seed + 5 * j) % 12, seed + j) for j in range(2 + seed % 2)]
+    ops = [{"op": "protect", "fl": "thread", "group": 1, "sid": sids[j], "rk": None, "net": "online", "data": 5 + j, "cache": "fresh"} for j in range(len(sids))]
     plan = {"seed": seed, "clock_ft": gkdi.interval_start_filetime(370, 4, 9) + seed % 1000, "root_keys": [[3, "SHA256", ("DH", "ECDH_P256")[seed % 2]]],
-            "caller_sids": [sid], "ctx": {"kind": "stub", "legs": 2, "sig": r.choice((16, 28))}, "dc": {"pad_mode": r.choice(("min16", "min4"))}, "ops": ops, "threads": policy}
+            "caller_sids": list(sids), "ctx": {"kind": "stub", "legs": 2, "sig": r.choice((16, 28))}, "dc": {"pad_mode": r.choice(("min16", "min4"))}, "ops": ops, "threads": policy}
     tr = P.execute_plan(plan)
     viol = None
     if tr.dc.all_violations:
